@@ -43,6 +43,9 @@ extern __thread char cur_replay[512];
 #define LABEL(...) snprintf(cur_label, sizeof cur_label, __VA_ARGS__)
 int viol_count(void);
 void hex(char *dst, const void *src, size_t n); /* dst must hold 2n+1 */
+const char *sym_name(const void *addr);         /* exact-address symbol name from <argv0>.syms (nm), "?" if unknown */
+const char *sym_containing(const void *addr, long *off);
+void *sym_addr(const char *name);               /* NULL if unknown */
 
 /* ---------- guarded memory ---------- */
 enum { G_END = 0, G_START = 1, G_MID = 2 };
